@@ -704,6 +704,20 @@ func c10ClampMonitor(t c10Xf, in, out any, mons *[]Mon) {
 	if mons == nil || t.Type != "math" || t.Math == nil {
 		return
 	}
+	if oi, isInt := out.(int64); isInt {
+		// integers are compared as integers: float64 cannot tell neighbours beyond 2^53 apart
+		switch t.Math.Type {
+		case "ClampMin":
+			if t.Math.ClampMin != nil && oi < *t.Math.ClampMin {
+				*mons = append(*mons, Mon{Sig: "C10:clamp-exceeds-bound", Why: fmt.Sprintf("ClampMin %d of %v gave %v", *t.Math.ClampMin, in, out)})
+			}
+		case "ClampMax":
+			if t.Math.ClampMax != nil && oi > *t.Math.ClampMax {
+				*mons = append(*mons, Mon{Sig: "C10:clamp-exceeds-bound", Why: fmt.Sprintf("ClampMax %d of %v gave %v", *t.Math.ClampMax, in, out)})
+			}
+		}
+		return
+	}
 	o, ok := c10AsFloat(out)
 	if !ok {
 		return
@@ -1043,7 +1057,11 @@ func c10RunResolve(s *c10Scn) (map[string]any, []Mon, string) {
 	if len(s.Warm) > 0 {
 		warm = "warm/"
 	}
-	return obs, mons, fmt.Sprintf("resolve/%s%s/in=%s/%s", warm, strings.Join(names, ","), c10TypeName(in), c10Or(ec, "ok"))
+	big := ""
+	if i, ok := in.(int64); ok && (i >= 1<<53 || i <= -(1<<53)) {
+		big = ">=2^53"
+	}
+	return obs, mons, fmt.Sprintf("resolve/%s%s/in=%s%s/%s", warm, strings.Join(names, ","), c10TypeName(in), big, c10Or(ec, "ok"))
 }
 
 func c10TypeName(v any) string {
